@@ -3,10 +3,37 @@
    src/mc/system.rs (McSystem), src/mc/state.rs (McState).  Definitions only. *)
 From ASV Require Import Base.Util Base.Msg Base.Log Model.Store.
 
+(* The operations of the pending-event store the system layer uses. Two instances: the model of the code's
+   PendingEvents (Model/Store.v, `concrete_ops`) and the one-list specification (Spec/StoreSpec.v, `abstract_ops`
+   in Spec/RefSys.v). Everything below is written once against this interface. *)
+Record store_ops {T : Type} (SE : Type) := {
+  so_empty : SE;
+  so_push : SE -> sevent T -> result (SE * id);
+  so_push_fixed : SE -> sevent T -> id -> result SE;
+  so_pop : SE -> id -> result (SE * sevent T);
+  so_cancel_timer : SE -> N -> N -> result SE;
+  so_cancel_proc : SE -> N -> result (SE * list (id * sevent T));
+  so_offered : SE -> bool -> result (list id);
+  so_get : SE -> id -> option (sevent T);
+  so_is_empty : SE -> result bool;
+  so_live : SE -> list (id * sevent T);
+  so_eqb : (T -> T -> bool) -> SE -> SE -> bool }.
+Arguments so_empty {T SE}.
+Arguments so_push {T SE}.
+Arguments so_push_fixed {T SE}.
+Arguments so_pop {T SE}.
+Arguments so_cancel_timer {T SE}.
+Arguments so_cancel_proc {T SE}.
+Arguments so_offered {T SE}.
+Arguments so_get {T SE}.
+Arguments so_is_empty {T SE}.
+Arguments so_live {T SE}.
+Arguments so_eqb {T SE}.
+
 Section McSys.
   Context {T : Type}.
+  Context {SE : Type} (so : @store_ops T SE).
   (* time algebra as far as the checker needs it *)
-  Variable tleb : T -> T -> bool.      (* <= on delays *)
   Variable tgt0 : T -> bool.           (* rate > 0. *)
   Variable teq0 : T -> bool.           (* rate == 0. *)
   Variable t0 : T.                     (* 0.0 *)
@@ -19,7 +46,6 @@ Section McSys.
   Variable mc_rand : DS -> nat -> T.
 
   Notation sevent := (sevent T).
-  Notation store := (store T).
   Notation logentry := (logentry T).
   Notation pentry := (pentry T PS).
   Notation action := (action T).
@@ -173,7 +199,7 @@ Section McSys.
   Record mcstate := {
     st_nodes : list (N * mcnodestate);
     st_net : mcnet;
-    st_events : store;
+    st_events : SE;
     st_depth : N;
     st_trace : list logentry }.
 
@@ -181,7 +207,7 @@ Section McSys.
   Record mcsys := {
     s_nodes : list (N * mcnode);
     s_net : mcnet;
-    s_events : store;
+    s_events : SE;
     s_depth : N;
     s_mf : bool;                        (* event_ordering_mode = MessagesFirst *)
     s_trace : list logentry }.
@@ -241,16 +267,16 @@ Section McSys.
         | NEMsg m src dst =>
           do x <- net_send (s_net s) m src dst;
           match x with
-          | SEvent ev => do (st, _) <- push tleb (s_events s) ev;
+          | SEvent ev => do (st, _) <- so_push so (s_events s) ev;
                          Ok (sys_with s (s_nodes s) (s_net s) st (s_depth s) (s_trace s))
           | SDropped m' src' dst' =>
             Ok (sys_with s (s_nodes s) (s_net s) (s_events s) (s_depth s) (s_trace s ++ [LMcMessageDropped m' src' dst']))
           end
         | NETimer p n d =>
-          do (st, _) <- push tleb (s_events s) (ETimer p n d);
+          do (st, _) <- so_push so (s_events s) (ETimer p n d);
           Ok (sys_with s (s_nodes s) (s_net s) st (s_depth s) (s_trace s))
         | NECancel p n =>
-          do st <- cancel_timer (s_events s) p n;
+          do st <- so_cancel_timer so (s_events s) p n;
           Ok (sys_with s (s_nodes s) (s_net s) st (s_depth s) (s_trace s))
         end;
       add_events s1 r
@@ -305,11 +331,11 @@ Section McSys.
     end.
 
   (* crash_node: processes in sorted name order (fix F1) *)
-  Fixpoint crash_procs (st : store) (procs : list N) (tr : list logentry) : result (store * list logentry) :=
+  Fixpoint crash_procs (st : SE) (procs : list N) (tr : list logentry) : result (SE * list logentry) :=
     match procs with
     | [] => Ok (st, tr)
     | p :: r =>
-      do (st', dropped) <- cancel_proc st p;
+      do (st', dropped) <- so_cancel_proc so st p;
       crash_procs st' r
         (tr ++ map (fun ie => match snd ie with
                               | EMsg m src dst _ => LMcMessageDropped m src dst
@@ -327,7 +353,7 @@ Section McSys.
       Ok (sys_with s (sins N.compare node nd' (s_nodes s)) net st (s_depth s) tr')
     end.
 
-  Definition available (s : mcsys) : result (list id) := offered (s_events s) (s_mf s).
+  Definition available (s : mcsys) : result (list id) := so_offered so (s_events s) (s_mf s).
 
   (* preliminary callback operations *)
   Inductive cbop :=
@@ -359,7 +385,7 @@ Section McSys.
 
   (* process_event: the alternatives for one offered id, in the order the code tries them *)
   Definition alternatives (s : mcsys) (i : id) : result (list choice) :=
-    match sget N.compare i (evs (s_events s)) with
+    match so_get so (s_events s) i with
     | None => Panic 50
     | Some (EMsg _ _ _ (Possible can_drop dupl can_corrupt)) =>
       Ok ([ChDeliver i] ++ (if can_drop then [ChDrop i] else []) ++ (if can_corrupt then [ChCorrupt i] else [])
@@ -367,38 +393,38 @@ Section McSys.
     | Some _ => Ok [ChDeliver i]
     end.
 
-  Definition with_events (s : mcsys) (st : store) := sys_with s (s_nodes s) (s_net s) st (s_depth s) (s_trace s).
+  Definition with_events (s : mcsys) (st : SE) := sys_with s (s_nodes s) (s_net s) st (s_depth s) (s_trace s).
 
   (* search_step without the save/restore: the system after taking the choice *)
   Definition take_choice (s : mcsys) (c : choice) : result mcsys :=
     match c with
     | ChDeliver i =>
-      do (st, e) <- pop (s_events s) i;
+      do (st, e) <- so_pop so (s_events s) i;
       apply_event (with_events s st) (ApEvent e)
     | ChDrop i =>
-      do (st, e) <- pop (s_events s) i;
+      do (st, e) <- so_pop so (s_events s) i;
       match e with
       | EMsg m src dst _ => apply_event (with_events s st) (ApDropped m src dst)
       | _ => Panic 51
       end
     | ChCorrupt i =>
-      do (st, e) <- pop (s_events s) i;
+      do (st, e) <- so_pop so (s_events s) i;
       match e with
       | EMsg m src dst o =>
         let o' := match o with Possible d k _ => Possible d k false | x => x end in
-        do st' <- push_fixed tleb st (EMsg (corrupt_msg m) src dst o') i;
+        do st' <- so_push_fixed so st (EMsg (corrupt_msg m) src dst o') i;
         apply_event (with_events s st') (ApCorrupted m (corrupt_msg m) src dst)
       | _ => Panic 52
       end
     | ChDup i =>
-      do (st, e) <- pop (s_events s) i;
+      do (st, e) <- so_pop so (s_events s) i;
       match e with
       | EMsg m src dst (Possible d k c) =>
         (* duplicate_event: the copy with max_dupl_count - 1 goes back under the same id (u32 underflow = panic),
            the original with max_dupl_count 0 is pushed as a new event *)
         if N.eqb k 0 then Panic 53 else
-        do st1 <- push_fixed tleb st (EMsg m src dst (Possible d (N.pred k) c)) i;
-        do (st2, _) <- push tleb st1 (EMsg m src dst (Possible d 0 c));
+        do st1 <- so_push_fixed so st (EMsg m src dst (Possible d (N.pred k) c)) i;
+        do (st2, _) <- so_push so st1 (EMsg m src dst (Possible d 0 c));
         apply_event (with_events s st2) (ApDuplicated m src dst)
       | _ => Panic 54
       end
@@ -434,3 +460,13 @@ Section McSys.
     do cs <- all_choices s;
     steps_of s cs.
 End McSys.
+
+(* the model of the code's store as an instance of the interface *)
+Section Concrete.
+  Context {T : Type} (tleb : T -> T -> bool).
+  Definition concrete_ops (store_eqb : (T -> T -> bool) -> store T -> store T -> bool) : @store_ops T (store T) :=
+    {| so_empty := empty;
+       so_push := push tleb; so_push_fixed := push_fixed tleb; so_pop := pop; so_cancel_timer := cancel_timer;
+       so_cancel_proc := cancel_proc; so_offered := offered; so_get := fun s i => sget N.compare i (evs s);
+       so_is_empty := is_empty; so_live := @evs T; so_eqb := store_eqb |}.
+End Concrete.
